@@ -174,7 +174,8 @@ theorem c18_obligations : Obligations RInv c18scan where
   oracle := fun s g fr h => h.mono (RLe.refl _) rfl
   worker := fun s g now r h hb => by
     obtain ⟨hf, hev⟩ := bStep_frame s now r hb
-    exact ⟨g, scan_noRound _ _ _ (fun e he => worker_noRound e (hev e he)), h.frame hf⟩
+    exact ⟨g, scan_noRound _ _ _ (fun e he => by
+      have := hev e he; cases e <;> simp_all [DEv.isWorkerMsg, DEv.isWorker, DEv.isRound]), h.frame hf⟩
   timer := fun s g now r h hf => by
     unfold DState.fireOne at hf
     cases hp : s.h.timer.pop with
@@ -258,18 +259,8 @@ theorem c18_obligations : Obligations RInv c18scan where
     unfold DState.datagram
     simp only
     split
-    · -- completes a pending exchange of the worker
-      rename_i p _
-      have hw0 := workerMessage_frame s p body src now
-      have hw : WFrame s (s.workerMessage p body src now).1 ∧ ∀ e ∈ (s.workerMessage p body src now).2, e.isRound = false :=
-        ⟨hw0.1, fun e he => by have := hw0.2 e he; cases e <;> simp_all [DEv.isWorkerMsg, DEv.isWorker, DEv.isRound]⟩
-      refine ⟨g, ?_, h.frame hw.1⟩
-      apply scan_noRound
-      intro e he
-      simp only [List.cons_append, List.nil_append, List.mem_cons] at he
-      rcases he with rfl | he
-      · rfl
-      · exact hw.2 e he
+    · -- completes a pending exchange of the worker: the answer waits for the worker
+      exact ⟨g, rfl, h.frame (wframe_ready s _)⟩
     · refine ⟨g, ?_, h.mono (handleIncoming_rle _ _ _ _ _) rfl⟩
       apply scan_noRound
       intro e he
